@@ -247,7 +247,13 @@ func padKey(base string, total int) string {
 
 // Key maps an abstract key (bytes) to the concrete key.  A trailing '!' asks
 // for a key of exactly 1024 bytes (the limit), '!!' for 1025 bytes.
+// longShared is a 220-byte prefix: keys written "^x" share it and differ only after it.
+var longShared = strings.Repeat("q", 220) // (no delimiter inside: the delimiter structure of the abstract key is kept)
+
 func (c *Conc) Key(k string) string {
+	if strings.HasPrefix(k, "^") {
+		return longShared + c.Key(k[1:])
+	}
 	if strings.HasSuffix(k, "!!") {
 		return padKey(c.Key(strings.TrimSuffix(k, "!!")), 1025)
 	}
@@ -270,6 +276,9 @@ func (c *Conc) Key(k string) string {
 
 // Unkey is the inverse of Key on keys produced by Key.
 func (c *Conc) Unkey(k string) string {
+	if strings.HasPrefix(k, longShared) {
+		return "^" + c.Unkey(k[len(longShared):])
+	}
 	if len(k) == 1024 || len(k) == 1025 {
 		if i := strings.Index(k, "-/pppppppp"); i >= 0 {
 			return c.Unkey(k[:i]) + strings.Repeat("!", len(k)-1023)
